@@ -542,6 +542,17 @@ def run_check(property_id: str, tier: str, fn, level: str = "other") -> int:
         fn(rep)
         code = rep.finish()
     except AnalysisError as e:
+        # a later rule lost its anchor after earlier rules had already established violations: the violations stand
+        # (each was decided on its own); the run is reported as incomplete, not as clean and not as merely broken
+        if rep.findings:
+            print(f"ANALYSIS-INCOMPLETE property={property_id} {e} -- the reports established before the analysis stopped follow")
+            try:
+                code = rep.finish()
+            except AnalysisError:
+                code = 2
+            if code == 1:
+                print(f"{property_id} [{tier}] analysis incomplete; {len(rep.findings)} report(s); exit=1")
+                return 1
         print(f"ANALYSIS-ERROR property={property_id} {e}")
         return 2
     except Exception:
